@@ -241,6 +241,10 @@ func ksStress(ks *didcrypto.KeyStore, findings *[]finding) int {
 	for i := 0; i < 4; i++ {
 		worker(func() { ks.Load(p0, "wrong") })
 	}
+	// the error paths: an address without any key file, a path that does not exist, a file that is not a key file
+	worker(func() { ks.LoadByAddress("no-such-address", "pw"); time.Sleep(20 * time.Millisecond) })
+	worker(func() { ks.Load(p0+".missing", "pw"); time.Sleep(20 * time.Millisecond) })
+	worker(func() { ks.LoadByAddress("", ""); time.Sleep(20 * time.Millisecond) })
 	// progress watchdog: the counter must keep moving
 	deadline := time.Now().Add(7 * time.Second)
 	last := int64(-1)
